@@ -2,7 +2,7 @@
 //! harness' own decimal printer/parser (all on num-bigint; nothing here touches dashu).
 use num_bigint::BigInt;
 use num_integer::Integer;
-use num_traits::{Signed, Zero};
+use num_traits::Signed;
 use pallas_math::math::{FixedDecimal, FixedPrecision};
 use proptest::prelude::*;
 use serde::{Deserialize, Serialize};
@@ -33,9 +33,6 @@ impl Fx {
         let v = if self.e >= 0 { m * pow10(self.e as u32) } else { m / pow10((-(self.e as i32)) as u32) };
         let v = if self.neg { -v } else { v };
         v + BigInt::from(self.adj)
-    }
-    pub fn int(n: i64, adj: i8) -> Fx {
-        Fx { neg: n < 0, a: 0, b: n.unsigned_abs(), e: 34, adj }
     }
 }
 
@@ -151,8 +148,4 @@ impl MaxF64 {
     pub fn get(&self) -> f64 {
         f64::from_bits(self.0.load(Ordering::Relaxed))
     }
-}
-
-pub fn is_zero(v: &BigInt) -> bool {
-    v.is_zero()
 }
